@@ -296,8 +296,9 @@ func vC13NewRig(cs *vC13Case) *vC13Rig {
 
 // ---- synthetic importer stream ----
 type vC13Block struct {
-	node ipld.Node
-	idx  int // canonical number of the CID (first appearance, from 1)
+	node    ipld.Node
+	idx     int  // canonical number of the CID (first appearance, from 1)
+	swallow bool // the importer went on after DAGService.Add returned an error for this block
 }
 
 func vC13Data(id, size int) []byte {
@@ -329,7 +330,7 @@ func vC13Stream(cs *vC13Case) ([]vC13Block, map[string]int, cid.Cid, int) {
 			ix = len(uni) + 1
 			uni[k] = ix
 		}
-		out = append(out, vC13Block{nd, ix})
+		out = append(out, vC13Block{node: nd, idx: ix})
 	}
 	for _, it := range cs.Items {
 		size := it.Size
@@ -378,6 +379,8 @@ type vC13Obs struct {
 	class   int
 	errMsg  string
 	evTerms []string
+	putIdx  [][2]int // (position in evTerms, cid index) of every OPut
+	putDs   []string
 	tbl     []string
 	nPuts   int
 	nPins   int
@@ -453,6 +456,8 @@ func (r *vC13Rig) obsTerms(uni map[string]int, root cid.Cid, err error, panicked
 			ds := append([]int{}, ev.dests...)
 			sort.Ints(ds)
 			o.evTerms = append(o.evTerms, fmt.Sprintf("OPut %d %s", r.idx(uni, ev.c), cqListN(ds)))
+			o.putIdx = append(o.putIdx, [2]int{len(o.evTerms) - 1, r.idx(uni, ev.c)})
+			o.putDs = append(o.putDs, cqListN(ds))
 		case 2:
 			o.nPins++
 			p := ev.pin
@@ -518,7 +523,7 @@ func (r *vC13Rig) obsTerms(uni map[string]int, root cid.Cid, err error, panicked
 		if bad {
 			continue
 		}
-		o.tbl = append(o.tbl, fmt.Sprintf("(%d, %s)", vC13MetaBase+i, cqListN(ls)))
+		o.tbl = append(o.tbl, fmt.Sprintf("(%d, %s)", vC13MetaBase+i, vC13RangeList(ls)))
 	}
 	o.direct = r.direct
 	return o
@@ -595,13 +600,14 @@ func vC13InputTerm(cs *vC13Case, stream []vC13Block, uni map[string]int, rootIdx
 			pf = append(pf, p)
 		}
 	}
-	var sb strings.Builder
-	sb.WriteString("[")
+	type sblk struct {
+		idx, size int
+		links     []int
+		sw        bool
+	}
+	bl := make([]sblk, len(stream))
 	for i, b := range stream {
-		if i > 0 {
-			sb.WriteString("; ")
-		}
-		ls := []int{}
+		var ls []int
 		for _, l := range b.node.Links() {
 			if ix, ok := uni[l.Cid.KeyString()]; ok {
 				ls = append(ls, ix)
@@ -609,11 +615,42 @@ func vC13InputTerm(cs *vC13Case, stream []vC13Block, uni map[string]int, rootIdx
 				ls = append(ls, vC13MetaBase-1) // a link that leaves the stream
 			}
 		}
-		fmt.Fprintf(&sb, "mkb %d %d %s", b.idx, len(b.node.RawData()), cqListN(ls))
+		bl[i] = sblk{b.idx, len(b.node.RawData()), ls, b.swallow}
 	}
-	sb.WriteString("]")
+	var parts []string
+	var lit []string
+	flush := func() {
+		if len(lit) > 0 {
+			parts = append(parts, cqList(lit))
+			lit = nil
+		}
+	}
+	for i := 0; i < len(bl); {
+		j := i
+		for j+1 < len(bl) && len(bl[j+1].links) == 0 && len(bl[i].links) == 0 && !bl[i].sw && !bl[j+1].sw &&
+			bl[j+1].idx == bl[j].idx+1 && bl[j+1].size == bl[i].size {
+			j++
+		}
+		if j-i+1 >= 8 {
+			flush()
+			parts = append(parts, fmt.Sprintf("bseg %d %d %d", bl[i].idx, j-i+1, bl[i].size))
+			i = j + 1
+			continue
+		}
+		mk := "mkb"
+		if bl[i].sw {
+			mk = "mkbs"
+		}
+		lit = append(lit, fmt.Sprintf("%s %d %d %s", mk, bl[i].idx, bl[i].size, cqListN(bl[i].links)))
+		i++
+	}
+	flush()
+	streamTerm := "[]"
+	if len(parts) > 0 {
+		streamTerm = "(" + strings.Join(parts, " ++ ") + ")"
+	}
 	return fmt.Sprintf("mk_input %s %s %s %d %d %s %s %s %s %s %d", cqBool(cs.Shard), cqZ(int64(cs.Rmin)), cqZ(int64(cs.Rmax)),
-		vC13Nat(cs.Limit), MaxLinks, cqBool(cs.Local), cqList(als), cqList(fs), cqListN(pf), sb.String(), rootIdx)
+		vC13Nat(cs.Limit), MaxLinks, cqBool(cs.Local), cqList(als), cqList(fs), cqListN(pf), streamTerm, rootIdx)
 }
 
 func vC13Nat(x int) int {
@@ -662,6 +699,80 @@ func vC13Normalize(cs *vC13Case) {
 const vC13Header = "From V Require Import Base.Common Model.C13_Adder Model.C13_Check.\nOpen Scope N_scope."
 const vC13Footer = "Definition R := Eval vm_compute in failing cases.\nPrint R."
 
+// vC13RangeList prints a list of numbers, runs of >= 8 consecutive values as `nrange a n`
+func vC13RangeList(xs []int) string {
+	var parts []string
+	var lit []int
+	flush := func() {
+		if len(lit) > 0 {
+			parts = append(parts, cqListN(lit))
+			lit = nil
+		}
+	}
+	for i := 0; i < len(xs); {
+		j := i
+		for j+1 < len(xs) && xs[j+1] == xs[j]+1 {
+			j++
+		}
+		if j-i+1 >= 8 {
+			flush()
+			parts = append(parts, fmt.Sprintf("nrange %d %d", xs[i], j-i+1))
+			i = j + 1
+			continue
+		}
+		lit = append(lit, xs[i])
+		i++
+	}
+	flush()
+	if len(parts) == 0 {
+		return "[]"
+	}
+	return "(" + strings.Join(parts, " ++ ") + ")"
+}
+
+// vC13EventList prints the observed events, runs of >= 8 puts of consecutive CIDs to the same destinations as `oputs c n ds`
+func vC13EventList(o *vC13Obs) string {
+	isPut := map[int]int{}
+	for k, pi := range o.putIdx {
+		isPut[pi[0]] = k
+	}
+	var parts []string
+	var lit []string
+	flush := func() {
+		if len(lit) > 0 {
+			parts = append(parts, cqList(lit))
+			lit = nil
+		}
+	}
+	for i := 0; i < len(o.evTerms); {
+		k, ok := isPut[i]
+		if ok {
+			j := i
+			kj := k
+			for {
+				k2, ok2 := isPut[j+1]
+				if !ok2 || o.putIdx[k2][1] != o.putIdx[kj][1]+1 || o.putDs[k2] != o.putDs[k] {
+					break
+				}
+				j, kj = j+1, k2
+			}
+			if j-i+1 >= 8 {
+				flush()
+				parts = append(parts, fmt.Sprintf("oputs %d %d %s", o.putIdx[k][1], j-i+1, o.putDs[k]))
+				i = j + 1
+				continue
+			}
+		}
+		lit = append(lit, o.evTerms[i])
+		i++
+	}
+	flush()
+	if len(parts) == 0 {
+		return "[]"
+	}
+	return "(" + strings.Join(parts, " ++ ") + ")"
+}
+
 func vC13CaseTerm(cs *vC13Case, stream []vC13Block, uni map[string]int, rootIdx int, o *vC13Obs, flags []int) string {
-	return fmt.Sprintf("(%s, (%s, %s, %s), %s)", vC13InputTerm(cs, stream, uni, rootIdx), o.resTerm, cqList(o.evTerms), cqList(o.tbl), cqListN(flags))
+	return fmt.Sprintf("(%s, (%s, %s, %s), %s)", vC13InputTerm(cs, stream, uni, rootIdx), o.resTerm, vC13EventList(o), cqList(o.tbl), cqListN(flags))
 }
